@@ -27,6 +27,15 @@ var props = map[string]Property{}
 
 func register(p Property) { props[p.ID()] = p }
 
+// outDir is where evidence and replay files are written (VERIF_OUT overrides it:
+// used when checks are run against a deliberately broken copy of the library).
+func outDir() string {
+	if d := os.Getenv("VERIF_OUT"); d != "" {
+		return d
+	}
+	return verifDir()
+}
+
 func verifDir() string {
 	if d := os.Getenv("VERIF_DIR"); d != "" {
 		return d
@@ -696,7 +705,7 @@ func driveMain(args []string) int {
 		return code, string(out)
 	}
 	keep := func(src string, sig string) string {
-		dir := filepath.Join(verifDir(), "replays", *propID)
+		dir := filepath.Join(outDir(), "replays", *propID)
 		os.MkdirAll(dir, 0o755)
 		dst := filepath.Join(dir, slug(sig)+".json")
 		b, _ := os.ReadFile(src)
@@ -930,7 +939,7 @@ func writeEvidence(prop Property, doc PropDoc, tier string, seed uint64, st *Sta
 		"violations":  violations,
 	}
 	b, _ := json.MarshalIndent(ev, "", " ")
-	dir := filepath.Join(verifDir(), "evidence")
+	dir := filepath.Join(outDir(), "evidence")
 	os.MkdirAll(dir, 0o755)
 	os.WriteFile(filepath.Join(dir, prop.ID()+".json"), b, 0o644)
 }
